@@ -120,3 +120,43 @@ def create(case, d):
                           dtname=ref.dtype.name, data=np.ascontiguousarray(ref).tobytes().hex())
         out['images'] = images
     return out
+
+
+def big(case, d):
+    """arrays larger than the 80 MiB default chunk: the default chunk plan must still tile them
+    (direct oracle only -- too large for a Coq literal)"""
+    path = os.path.join(d, 'big')
+    kind = case['kind']
+    try:
+        if kind == 'asarray2d':
+            ref = (np.arange(3 * 30_000_000, dtype='int64') % 251).astype('uint8').reshape(3, 30_000_000)
+            a = darr.asarray(path, ref)
+        elif kind == 'fill1d':
+            n = 100_000_007
+            a = darr.create_array(path, shape=(n,), dtype='uint8', fillfunc=lambda i: i % 251)
+            ref = (np.arange(n, dtype='int64') % 251).astype('uint8')
+        elif kind == 'asarray1d':
+            n = 90_000_001
+            ref = (np.arange(n, dtype='int64') % 249).astype('uint8')
+            a = darr.asarray(path, ref)
+        elif kind == 'copy':
+            n = 85_000_003
+            ref = (np.arange(n, dtype='int64') % 247).astype('uint8')
+            src = darr.asarray(os.path.join(d, 'src'), ref, chunklen=40_000_000)
+            a = src.copy(path)
+        else:
+            raise ValueError(kind)
+        fresh = darr.Array(path)
+        ok = (a.shape == ref.shape and fresh.shape == ref.shape and a.dtype == ref.dtype
+              and os.path.getsize(os.path.join(path, 'arrayvalues.bin')) == ref.nbytes)
+        detail = ''
+        if ok:
+            got = fresh[:]
+            if not np.array_equal(got, ref):
+                bad = np.flatnonzero(got.reshape(-1) != ref.reshape(-1))
+                ok, detail = False, f'{bad.size} elements differ, first at flat index {int(bad[0])}'
+        else:
+            detail = f'shape {a.shape} / {fresh.shape} for {ref.shape}, file {os.path.getsize(os.path.join(path, "arrayvalues.bin"))} bytes for {ref.nbytes}'
+        return dict(ok=bool(ok), detail=detail, nbytes=int(ref.nbytes))
+    except Exception as e:
+        return dict(ok=False, detail=f'{type(e).__name__}: {e}'[:300], nbytes=0)
